@@ -1418,6 +1418,52 @@ def c19(a):
                     recs[qq["case"]] = qq
             rr = recs.get(case, {})
             v.violation({"record": rr}, f"{what}: {ty} `{op}` x={rr.get('x', rr.get('special'))} y={rr.get('y', rr.get('special2'))} -> {rr.get('r')}: {verdict}")
+    # composite expressions over the real float table (infix with and without parentheses, call form, nested): exact dyadic
+    # values, the reference meaning evaluated in exact rational arithmetic by TLC
+    FE_V = __import__("re").compile(r'<<\s*"V",\s*(\d+),\s*(\d+),\s*"floatexpr",\s*"([^"]*)"\s*>>')
+    nfe = 4000 if a.tier == "quick" else 60000
+    jobs = []
+    for k in range(4):
+        tag = f"C19/floatcomp-{k}"
+        jobs.append(lambda tag=tag, k=k: (tag,) + pipeline.fuzz_replay(
+            tag, ["fuzz-calc", "--family", "floatcomp", "--n", str(nfe // 4), "--stream", str(k)], [], mode="floatexpr"))
+    fstats = {"ok": 0, "inconclusive": 0, "bad": 0}
+    for tag, fsumm, fobs in parallel(jobs):
+        if fsumm.get("crashed"):
+            v.violation({"pipeline": tag, "detail": fsumm}, f"{what}: the library aborted the recorder process in {tag}")
+            continue
+        v.cov["traces_validated_against_impl"] += fsumm["cases"]
+        v.cov["evaluations"] += fsumm["runs"]
+        lines = open(fobs).read().splitlines(True)
+        open(fobs, "w").writelines(lines[1:])          # fuzz_replay prepends an empty table line; the generator's own follows
+        for part in pipeline.split_ndjson(fobs, 4000, header=True):
+            r = vlib.run_tlc("Judge_FloatExpr", os.path.join(SPEC, "Judge_FloatExpr.cfg"), f"C19-jfe-{os.path.basename(part)}", workers=1,
+                             timeout=1500, env_extra={"TRACE": part}, heap="3g")
+            vlib.tlc_or_die(r, f"Judge_FloatExpr on {part}")
+            v.add_tlc(r, f"Judge_FloatExpr[{os.path.basename(part)}]")
+            nrec = sum(1 for _ in open(part)) - 1
+            vs = [(int(m.group(1)), int(m.group(2)), m.group(3)) for m in FE_V.finditer(r.out)]
+            if len(vs) != 4 * nrec:
+                raise vlib.ToolError(f"Judge_FloatExpr: {4 * nrec} runs recorded but {len(vs)} verdicts parsed ({part})")
+            recs = None
+            for case, k2, verdict in vs:
+                if verdict == "ok" or verdict.startswith("inconclusive"):
+                    fstats["ok" if verdict == "ok" else "inconclusive"] += 1
+                    continue
+                fstats["bad"] += 1
+                if recs is None:
+                    recs = {}
+                    for line in open(part):
+                        qq = json.loads(line)
+                        if "case" in qq:
+                            recs[qq["case"]] = qq
+                rr = recs.get(case, {})
+                run = (rr.get("res") or [{}] * k2)[k2 - 1]
+                v.violation({"text": vlib.uncps(rr.get("text", [])), "point": rr.get("point"), "run": run},
+                            f"{what}: `{vlib.uncps(rr.get('text', []))}` as {run.get('form')} expression over {run.get('ty')}: {verdict}")
+    v.cov["composite_expressions"] = fstats
+    v.notes.append(f"composite expressions over the real float table (+ - * / min max, signs; infix with and without parentheses, call form, "
+                   f"nested up to 4 levels) at dyadic points, flat and deep, f64 and f32, against exact rational evaluation of the reference meaning: {fstats}")
     for ty in ("f32", "f64"):
         missing = EXPECTED_FLOAT_NAMES - seen[ty]
         extra = seen[ty] - EXPECTED_FLOAT_NAMES
